@@ -207,6 +207,47 @@ def long_worker(kp, job):
     return {'records': [engine.rec('long', viol=viol[:2], kind='long-score', key=('long', idx, len(lines)))]}
 
 
+def fragment_worker(kp, job):
+    """a score cut after one of its data lines (a fragment, a truncated file: no terminator row, its last row holds
+    notes): the export of its transposition is the beginning of the export of the transposed whole score - every note
+    of the fragment moves, the last row included"""
+    seed, idx = job
+    rng = random.Random(seed * 982451653 + idx)
+    records = []
+    for it in range(6):
+        g = docs.gen_doc(rng, kern_only=(it % 2 == 0), chords=False, max_spines=3, measures=rng.randint(1, 3), comments=False, splits=False,
+                         mid_signatures=False, bboxes=0, blanks=0, twins=0, plain_acc=True)
+        lines = [l for l in g.text.replace('\r\n', '\n').split('\n') if l != '']
+        data = [i for i, l in enumerate(lines) if l[:1] not in '*!=' and any(ch in 'abcdefgABCDEFG' for ch in l)]
+        if not data:
+            continue
+        cut = rng.choice(data[-3:])
+        frag = '\n'.join(lines[:cut + 1]) + '\n'
+        whole = '\n'.join(lines) + '\n'
+        iv, d = rng.choice(kp.AVAILABLE_INTERVALS), rng.choice(['up', 'down'])
+        viol = []
+        w = {'text': frag, 'interval': iv, 'direction': d}
+        try:
+            dw, ew = kp.loads(whole)
+            tw = kp.dumps(dw.to_transposed(iv, d)).split('\n')
+        except Exception:
+            continue                      # an unspellable result: nothing to compare
+        try:
+            df, ef = kp.loads(frag)
+            tf = kp.dumps(df.to_transposed(iv, d)).split('\n')
+            sf = kp.dumps(kp.loads(frag)[0]).split('\n')
+            sw = kp.dumps(kp.loads(whole)[0]).split('\n')
+            n_ = len([x for x in tf if x != ''])
+            if sf[:n_] == sw[:n_] and tf[:n_] != tw[:n_]:
+                k = next(i for i in range(n_) if tf[i] != tw[i])
+                viol.append(('moved-only-pitch', f'{iv} {d}: a score cut after a data line (no terminator row): line {k + 1} of its transposition is {tf[k]!r}, '
+                                                 f'in the transposed whole score it is {tw[k]!r}', w))
+        except Exception as e:
+            viol.append(('moved-only-pitch', f'{iv} {d}: transposing a score cut after a data line raised {type(e).__name__} (the whole score transposes)', w))
+        records.append(engine.rec('fragment', viol=viol, kind='unterminated-fragment', key=('fragment', frag, iv, d)))
+    return {'records': records}
+
+
 def run(chk):
     b = core.standard_build(chk)
     model = core.Model() if b.modelrun_ok else None
@@ -217,6 +258,7 @@ def run(chk):
                 'non-trivial = distinct (text, interval, direction)')
     results = engine.pmap(worker, [(chk.seed, i, full) for i in range(n)])
     results += engine.pmap(long_worker, [(chk.seed, i) for i in range(2 if not full else 6)], nproc=6)
+    results += engine.pmap(fragment_worker, [(chk.seed, i) for i in range(core.budget(chk, full, 6, 60))])
     engine.settle(chk, results, model)
     chk.disagreements_checked = len(chk.broken)
 
